@@ -41,7 +41,7 @@ type c19Scenario struct {
 
 func c19Gen(t *rapid.T) c19Scenario {
 	sc := c19Scenario{
-		MaxConnsPerKey: rapid.IntRange(1, 2).Draw(t, "max_conns"),
+		MaxConnsPerKey: rapid.SampledFrom([]int{1, 1, 1, 2, 2, 2, 0, -1}).Draw(t, "max_conns"), // 0: nothing is kept; -1: a value that cannot be meant (conn_max_idle_count is not range-checked)
 		LifetimeSec:    rapid.SampledFrom([]int{2, 2, 5, 30}).Draw(t, "lifetime"),
 		StaleSec:       rapid.SampledFrom([]int{2, 5, 30}).Draw(t, "stale"),
 		MaxKeys:        rapid.IntRange(1, 2).Draw(t, "max_keys"),
